@@ -167,5 +167,37 @@ example : decode (encode { maxSize := 16, timeouts := { wait := some ⟨5, 99999
     some { maxSize := 16, timeouts := { wait := some ⟨5, 999999999⟩ }, queueMode := .lifo } := by
   decide
 
+
+/-- **C19 (whole configs read from a document).** For the three flavours: deserialising a
+document conjures nothing - a `url(s)` / `connection(s)` / `pool` key that is absent stays
+absent - so a document naming only urls yields a config that uses exactly those, one naming
+only connections exactly those, one naming neither the default server; and every other omitted
+key takes its documented default (`read_from_replicas = false`, `server_type = master`,
+`master_name = "mymaster"`), a given one its value. -/
+theorem C19_whole_defaults (f : Flavour) (d : WholeDoc) :
+    ((decodeWhole f d).urls = d.urls ∧ (decodeWhole f d).conns = d.conns ∧
+      (decodeWhole f d).pool = d.pool) ∧
+    (d.flag = none → (decodeWhole f d).flag = false) ∧
+    (∀ b, d.flag = some b → (decodeWhole f d).flag = b) ∧
+    (f = .sentinel → d.name = none → (decodeWhole f d).name = "mymaster") ∧
+    (∀ n, f = .sentinel → d.name = some n → (decodeWhole f d).name = n) ∧
+    (d.urls = true → d.conns = false → (decodeWhole f d).decision = .useUrls ()) ∧
+    (d.urls = false → d.conns = true → (decodeWhole f d).decision = .useConnections ()) ∧
+    (d.urls = false → d.conns = false → (decodeWhole f d).decision = .useDefault) ∧
+    (d.urls = true → d.conns = true →
+      (decodeWhole f d).decision = .urlAndConnectionSpecified) := by
+  refine ⟨⟨rfl, rfl, rfl⟩, ?_, ?_, ?_, ?_, ?_, ?_, ?_, ?_⟩
+  · intro h; simp [decodeWhole, h]
+  · intro b h; simp [decodeWhole, h]
+  · intro hf h; subst hf; simp [decodeWhole, h]
+  · intro n hf h; subst hf; simp [decodeWhole, h]
+  · intro h1 h2; simp [Whole.decision, decodeWhole, h1, h2, decide]
+  · intro h1 h2; simp [Whole.decision, decodeWhole, h1, h2, decide]
+  · intro h1 h2; simp [Whole.decision, decodeWhole, h1, h2, decide]
+  · intro h1 h2; simp [Whole.decision, decodeWhole, h1, h2, decide]
+
+/-- not vacuous: the empty sentinel document -/
+example : decodeWhole .sentinel {} = ⟨false, false, none, false, "mymaster"⟩ := rfl
+
 end Rd
 end DeadpoolVerif
